@@ -503,7 +503,102 @@ func mkChoice(c *smt.Term, a, b Value) Value {
 	case *MapC, *ChanC, *IterC:
 		panic(unsupported(fmt.Sprintf("cannot merge heap contents %T and %T", a, b)))
 	}
-	return &ChoiceV{C: c, A: a, B: b}
+	// canonical form: one alternative per distinct reference (keeps choices from nesting without bound)
+	type alt struct {
+		g *smt.Term
+		v Value
+	}
+	var alts []alt
+	idx := map[string]int{}
+	okFlat := true
+	var collect func(g *smt.Term, v Value, depth int)
+	collect = func(g *smt.Term, v Value, depth int) {
+		if !okFlat || g.IsFalse() {
+			return
+		}
+		if ch, isCh := v.(*ChoiceV); isCh {
+			if depth > 64 {
+				okFlat = false
+				return
+			}
+			if ch.Excl {
+				// exclusive chain: no need to accumulate negations level by level
+				seen := smt.False
+				var node Value = ch
+				for {
+					n, ok := node.(*ChoiceV)
+					if !ok || !n.Excl {
+						break
+					}
+					collect(smt.And(g, n.C), n.A, depth+1)
+					seen = smt.Or(seen, n.C)
+					node = n.B
+				}
+				collect(smt.And(g, smt.Not(seen)), node, depth+1)
+				return
+			}
+			collect(smt.And(g, ch.C), ch.A, depth+1)
+			collect(smt.And(g, smt.Not(ch.C)), ch.B, depth+1)
+			return
+		}
+		id, ok := leafIdent(v)
+		if !ok {
+			okFlat = false
+			return
+		}
+		if j, seen := idx[id]; seen {
+			alts[j].g = smt.Or(alts[j].g, g)
+			return
+		}
+		idx[id] = len(alts)
+		alts = append(alts, alt{g, v})
+	}
+	collect(c, a, 0)
+	collect(smt.Not(c), b, 0)
+	if !okFlat || len(alts) == 0 {
+		return &ChoiceV{C: c, A: a, B: b}
+	}
+	r := alts[len(alts)-1].v
+	for i := len(alts) - 2; i >= 0; i-- {
+		r = &ChoiceV{C: alts[i].g, A: alts[i].v, B: r, Excl: true}
+	}
+	return r
+}
+
+// leafIdent identifies reference values that can be shared between choice alternatives.
+func leafIdent(v Value) (string, bool) {
+	switch x := v.(type) {
+	case *NilV:
+		return "nil", true
+	case *ChanV:
+		return fmt.Sprintf("ch%d", x.Obj), true
+	case *MapV:
+		return fmt.Sprintf("m%d", x.Obj), true
+	case *IterV:
+		return fmt.Sprintf("it%d", x.Obj), true
+	case *Opaque:
+		return fmt.Sprintf("o%d", x.ID), true
+	case *PtrV:
+		for _, p := range x.Path {
+			if p.Idx != nil && !p.Idx.IsConst() {
+				return "", false
+			}
+		}
+		return keyIdent(x), true
+	case *FuncV:
+		if len(x.Bind) == 0 {
+			return fmt.Sprintf("fn%p", x.Fn), true
+		}
+	case *SliceV:
+		if x.Len.IsConst() {
+			return fmt.Sprintf("sl%d:%d:%d:%d", x.Obj, x.Off, x.Cap, x.Len.V), true
+		}
+	case *IfaceV:
+		if id, ok := leafIdent(x.V); ok {
+			return fmt.Sprintf("i(%v:%s)", x.T, id), true
+		}
+	}
+	return "", false
 }
 
 func mergeMapC(c *smt.Term, x, y *MapC) *MapC {
@@ -588,6 +683,13 @@ func mergeMapC(c *smt.Term, x, y *MapC) *MapC {
 }
 
 func mergeChanC(c *smt.Term, x, y *ChanC) *ChanC {
+	if x.Ring {
+		sl := make([]Value, len(x.Slots))
+		for i := range sl {
+			sl[i] = mergeV(c, x.Slots[i], y.Slots[i])
+		}
+		return &ChanC{Ring: true, Slots: sl, Len: smt.Ite(c, x.Len, y.Len), Closed: smt.Ite(c, x.Closed, y.Closed), Cap: x.Cap}
+	}
 	i := 0
 	for i < len(x.Entries) && i < len(y.Entries) && x.Entries[i] == y.Entries[i] {
 		i++
